@@ -139,7 +139,18 @@ func runOne(t *testing.T, sc *Scenario, tape *simrt.Tape, tier string, wantTrace
 	if res.Livelock {
 		vs = append(vs, simrt.Violation{Rule: "livelock", Msg: fmt.Sprintf("%d scheduler steps without the clock moving; tasks: %s", s.LivelockSteps, strings.Join(res.Blocked, "; "))})
 	}
-	if leftBehind && !res.Aborted && !res.Deadlock && !res.Livelock && !res.StepBudget && !res.VirtBudget {
+	// Goroutines still parked when everything has returned are a violation only where a
+	// property says so: C11 ("leaving no goroutine behind"). The other statements are silent
+	// about it (a server may keep idle workers of a pool parked after Serve has returned), so
+	// there it is recorded as a reach probe only.
+	leakMatters := sc.Property == "C11" || sc.Property == "selftest"
+	if leftBehind && !leakMatters && !res.Aborted && !res.Deadlock && !res.Livelock {
+		if out.Probes == nil {
+			out.Probes = map[string]int{}
+		}
+		out.Probes["goroutines-still-parked-at-end-of-run (not judged for this property)"]++
+	}
+	if leftBehind && leakMatters && !res.Aborted && !res.Deadlock && !res.Livelock && !res.StepBudget && !res.VirtBudget {
 		vs = append(vs, simrt.Violation{Rule: "goroutine-leak", Msg: fmt.Sprintf("every call, Close and Serve of the run has returned and every harness task has finished, but goroutines are still blocked inside the simulation (testing/synctest: blocked goroutines remain); goroutines not started by the scheduler that reached instrumented code: %d", s.Adopted)})
 	}
 	if oracle != nil && out.Inconclusive == "" && !res.Aborted {
